@@ -363,7 +363,8 @@ def run(chk: Check):
                     if mr != exp:
                         dis.append(('read', mr[:160], exp[:160]))
                 else:
-                    if mr != o['read']:
+                    # both refuse (HeaderDataError); the message text is not compared, only the outcome class
+                    if not mr.startswith('err'):
                         dis.append(('read-error', mr[:80], o['read']))
         # ---- the property predicate, evaluated directly on the implementation
         pred = None
